@@ -14,6 +14,94 @@ type Scope struct {
 	Vars  map[string]cty.Value
 	ByTy  map[string][]string // "num","str","bool","listnum","liststr","tuple","map","obj","listobj","null"
 	Flags map[string]string   // how a variable was abstracted: "unknown", "dyn", "marked", "marked-nested"
+	Orig  map[string]cty.Value // the known, unmarked values before abstraction / marking
+}
+
+// Variant returns a scope in which the content of every marked variable (or marked element) is replaced by
+// fresh content of the same type, keeping the mark positions; everything else is identical.
+func (s *Scope) Variant(r *lib.Rand) *Scope {
+	out := &Scope{Vars: map[string]cty.Value{}, ByTy: s.ByTy, Flags: s.Flags, Orig: s.Orig}
+	for n, v := range s.Vars {
+		out.Vars[n] = v
+	}
+	fresh := func(t cty.Type) cty.Value {
+		switch {
+		case t == cty.Number:
+			return numVal(r)
+		case t == cty.String:
+			return strVal(r)
+		case t == cty.Bool:
+			return boolVal(r)
+		}
+		return cty.NilVal
+	}
+	for n, f := range s.Flags {
+		v := s.Vars[n]
+		switch f {
+		case "marked":
+			uv, _ := v.Unmark()
+			t := uv.Type()
+			switch {
+			case t.IsPrimitiveType():
+				out.Vars[n] = fresh(t).Mark("m")
+			case t.IsListType() && t.ElementType().IsPrimitiveType():
+				var els []cty.Value
+				for i := r.Intn(4); i > 0; i-- {
+					els = append(els, fresh(t.ElementType()))
+				}
+				if len(els) == 0 {
+					out.Vars[n] = cty.ListValEmpty(t.ElementType()).Mark("m")
+				} else {
+					out.Vars[n] = cty.ListVal(els).Mark("m")
+				}
+			case t.IsMapType() && t.ElementType().IsPrimitiveType():
+				out.Vars[n] = cty.MapVal(map[string]cty.Value{"a": fresh(t.ElementType()), "b": fresh(t.ElementType())}).Mark("m")
+			case t.IsTupleType():
+				var els []cty.Value
+				for _, et := range t.TupleElementTypes() {
+					if et.IsPrimitiveType() {
+						els = append(els, fresh(et))
+					} else {
+						els = nil
+						break
+					}
+				}
+				if els != nil {
+					out.Vars[n] = cty.TupleVal(els).Mark("m")
+				}
+			}
+		case "marked-nested":
+			var els []cty.Value
+			for it := v.ElementIterator(); it.Next(); {
+				_, ev := it.Element()
+				if ev.IsMarked() {
+					uv, _ := ev.Unmark()
+					if nv := fresh(uv.Type()); nv != cty.NilVal {
+						ev = nv.Mark("m")
+					}
+				}
+				els = append(els, ev)
+			}
+			if v.Type().IsListType() {
+				out.Vars[n] = cty.ListVal(els)
+			} else {
+				out.Vars[n] = cty.TupleVal(els)
+			}
+		}
+	}
+	return out
+}
+
+// Concrete returns the scope before any variable was abstracted to unknown (marks are kept).
+func (s *Scope) Concrete() *Scope {
+	out := &Scope{Vars: map[string]cty.Value{}, ByTy: s.ByTy, Flags: s.Flags, Orig: s.Orig}
+	for n, v := range s.Vars {
+		out.Vars[n] = v
+		if f := s.Flags[n]; f == "unknown" || f == "dyn" {
+			out.Vars[n] = s.Orig[n]
+		}
+	}
+	return out
 }
 
 func numVal(r *lib.Rand) cty.Value {
@@ -48,7 +136,7 @@ func boolVal(r *lib.Rand) cty.Value { return cty.BoolVal(r.Chance(1, 2)) }
 
 // GenScope builds a scope of known values, then abstracts / marks some of them when allowed.
 func GenScope(r *lib.Rand, unknowns, marks bool) *Scope {
-	s := &Scope{Vars: map[string]cty.Value{}, ByTy: map[string][]string{}, Flags: map[string]string{}}
+	s := &Scope{Vars: map[string]cty.Value{}, ByTy: map[string][]string{}, Flags: map[string]string{}, Orig: map[string]cty.Value{}}
 	add := func(ty, name string, v cty.Value) {
 		s.Vars[name] = v
 		s.ByTy[ty] = append(s.ByTy[ty], name)
@@ -84,6 +172,9 @@ func GenScope(r *lib.Rand, unknowns, marks bool) *Scope {
 	add("null", "nul", cty.NullVal(cty.DynamicPseudoType))
 	add("null", "nuls", cty.NullVal(cty.String))
 	names := []string{"n1", "n2", "idx", "s1", "s2", "key", "b1", "b2", "l1", "ls", "t1", "m1", "o1", "lo"}
+	for n, v := range s.Vars {
+		s.Orig[n] = v
+	}
 	if unknowns {
 		for k := r.Intn(3); k > 0; k-- {
 			n := names[r.Intn(len(names))]
@@ -150,6 +241,16 @@ func (g *TypedGen) pickVar(ty string) *lib.Node {
 	}
 	if len(cands) == 0 {
 		return nil
+	}
+	// prefer variables that were abstracted or marked, so that the relational self-tests are not vacuous
+	var pref []string
+	for _, c := range cands {
+		if _, ok := g.S.Flags[c]; ok {
+			pref = append(pref, c)
+		}
+	}
+	if len(pref) > 0 && g.R.Chance(3, 5) {
+		return &lib.Node{K: "var", S: pref[g.R.Intn(len(pref))]}
 	}
 	return &lib.Node{K: "var", S: cands[g.R.Intn(len(cands))]}
 }
@@ -404,6 +505,12 @@ func (g *TypedGen) Gen(ty string, depth int) *lib.Node {
 
 // collection picks an iterable variable and the type tag of its elements.
 func (g *TypedGen) collection() (*lib.Node, string) {
+	tags := map[string]string{"l1": "num", "ls": "str", "m1": "str", "t1": "any", "o1": "any"}
+	for n := range g.S.Flags {
+		if t, ok := tags[n]; ok && g.R.Chance(1, 2) {
+			return &lib.Node{K: "var", S: n}, t
+		}
+	}
 	switch g.R.Intn(7) {
 	case 0, 1:
 		return &lib.Node{K: "var", S: "l1"}, "num"
